@@ -71,6 +71,21 @@ def handle (op : String) (args : List String) : Option String :=
   | "c15.spec.bweight", [blk] => some <| match parseBlock? blk with
       | some b => toString (Spec.Merkle.blockWeight b)
       | none => badArgs
+  -- every size observable of a block at once:
+  --   GetWeight ; len(serialize(include_witness=False)) ; len(serialize()) ; calc_weight of each tx
+  | "c15.sizes", [blk] => some <| match parseBlock? blk with
+      | some b =>
+          let len (r : Res Bytes) : String := Res.render (r.map (fun x => toString x.length))
+          ";".intercalate [renderNat (Model.Merkle.getWeight b), len (Model.Wire.serBlock b false),
+            len (Model.Wire.serBlock b true),
+            ",".intercalate (b.vtx.map (fun t => renderNat (Model.Merkle.calcWeight t)))]
+      | none => badArgs
+  | "c15.spec.sizes", [blk] => some <| match parseBlock? blk with
+      | some b =>
+          ";".intercalate [toString (Spec.Merkle.blockWeight b), toString (Spec.Merkle.blockStripped b).length,
+            toString (Spec.Wire.block b).length,
+            ",".intercalate (b.vtx.map (fun t => toString (Spec.Merkle.txWeight t)))]
+      | none => badArgs
   | _, _ => none
 
 end Driver.C15
